@@ -631,7 +631,8 @@ Section WithNodeInfoDecoder.
     end.
 
   (* assignments in order of appearance; the last one for a key wins *)
-  Fixpoint conv_fields {R} (s : sid) (set : bytes -> fval -> R -> option R)
+  Fixpoint conv_fields {R} (s : sid) (conv : kind -> gval -> cresult fval)
+           (set : bytes -> fval -> R -> option R)
            (fs : list (bytes * gval)) (acc : R) : cresult R :=
     match fs with
     | [] => COk acc
@@ -639,41 +640,31 @@ Section WithNodeInfoDecoder.
         match lookup_field s key with
         | None => CErr
         | Some fd =>
-            obind (conv_kind (f_kind fd) v) (fun fv =>
+            obind (conv (f_kind fd) v) (fun fv =>
             obind (of_opt (set (f_name fd) fv acc)) (fun acc' =>
-            conv_fields s set fs' acc'))
+            conv_fields s conv set fs' acc'))
         end
     end.
 
   Definition conv_args (v : gval) : cresult xargs :=
-    match v with VStruct fs => conv_fields SArgs set_args fs empty_xargs | _ => CErr end.
+    match v with VStruct fs => conv_fields SArgs conv_kind set_args fs empty_xargs | _ => CErr end.
   Definition conv_ret (v : gval) : cresult xret :=
-    match v with VStruct fs => conv_fields SRet set_ret fs empty_xret | _ => CErr end.
+    match v with VStruct fs => conv_fields SRet conv_kind set_ret fs empty_xret | _ => CErr end.
 
-  (* the top-level struct: pointer-to-struct fields are converted with a fresh zero struct *)
-  Fixpoint conv_msg_fields (fs : list (bytes * gval)) (acc : xmsg) : cresult xmsg :=
-    match fs with
-    | [] => COk acc
-    | (key, v) :: fs' =>
-        match lookup_field SMsg key with
-        | None => CErr
-        | Some fd =>
-            obind (match f_kind fd with
-                   | KPtrStruct n =>
-                       match sid_of_name n with
-                       | Some SArgs => obind (conv_args v) (fun a => COk (FArgs (Some a)))
-                       | Some SRet => obind (conv_ret v) (fun r => COk (FRet (Some r)))
-                       | _ => CErr
-                       end
-                   | k => conv_kind k v
-                   end) (fun fv =>
-            obind (of_opt (set_msg (f_name fd) fv acc)) (fun acc' =>
-            conv_msg_fields fs' acc'))
+  (* the top-level struct: pointer-to-struct fields are converted into a fresh zero struct *)
+  Definition conv_kind_msg (k : kind) (v : gval) : cresult fval :=
+    match k with
+    | KPtrStruct n =>
+        match sid_of_name n with
+        | Some SArgs => obind (conv_args v) (fun a => COk (FArgs (Some a)))
+        | Some SRet => obind (conv_ret v) (fun r => COk (FRet (Some r)))
+        | _ => CErr
         end
+    | _ => conv_kind k v
     end.
 
   Definition conv_msg (v : gval) : cresult xmsg :=
-    match v with VStruct fs => conv_msg_fields fs empty_xmsg | _ => CErr end.
+    match v with VStruct fs => conv_fields SMsg conv_kind_msg set_msg fs empty_xmsg | _ => CErr end.
 
   (* ---- bencode.Unmarshal(b, &msg) ---- *)
   Inductive decode_result (A : Type) :=
@@ -859,3 +850,101 @@ Definition error_marshal_benc (e : krpc_error) : bytes := benc (BList [BInt (e_c
 Definition compact_unmarshal_benc {A} (dec : bytes -> cresult (list A)) (raw : bytes) : cresult (list A) :=
   obind (benc_string_of_raw raw) dec.
 Definition compact_marshal_benc (o : cresult bytes) : cresult bytes := obind o (fun b => COk (benc_str b)).
+
+(* ================================================================================================
+   Part 4 — well-formed messages: what `encode` followed by `decode` gives back unchanged.
+   Driven by the schema like the codec itself: a struct is well-formed when every field listed in
+   the schema has a well-formed value of the shape its kind demands.
+   ================================================================================================ *)
+Definition one_raw_valueb (raw : bytes) : bool :=
+  match scan_value raw with
+  | Some (r, []) => bytes_eqb r raw
+  | _ => false
+  end.
+
+(* port in uint16, and the binary form within the decoder's string limit *)
+Definition addr_okb (a : node_addr) : bool := port_okb (na_port a) && str_ok (nodeaddr_marshal a).
+
+Definition blob_okb (n w : nat) : bool := N.leb (N.of_nat (n * w)) max_str_len.
+
+Definition is_nil {A} (l : list A) : bool := match l with [] => true | _ => false end.
+
+(* compact list fields of the kinds the schema uses: contacts in the family of their list, exact id
+   width; a plain (non-pointer) compact list is nil or non-empty, because an empty string leaves nil *)
+Definition compact_wfb (c : bytes) (ptr : bool) (fv : fval) : bool :=
+  match fv with
+  | FInfos o =>
+      match o with
+      | None => bytes_eqb c nm_CompactIPv4NodeInfo || bytes_eqb c nm_CompactIPv6NodeInfo
+      | Some l =>
+          (ptr || negb (is_nil l)) &&
+          (if bytes_eqb c nm_CompactIPv4NodeInfo then forallb (wf_infob 4) l && blob_okb (length l) 26
+           else if bytes_eqb c nm_CompactIPv6NodeInfo then forallb (wf_infob 16) l && blob_okb (length l) 38
+           else false)
+      end
+  | FStrs o =>
+      bytes_eqb c nm_CompactInfohashes &&
+      match o with
+      | None => true
+      | Some l => (ptr || negb (is_nil l)) && forallb (fun h => Nat.eqb (length h) 20) l && blob_okb (length l) 20
+      end
+  | _ => false
+  end.
+
+Definition wf_fieldb (k : kind) (fv : fval) : bool :=
+  match k, fv with
+  | KStr, FStr s => str_ok s
+  | KPtrStr, FOStr o => match o with Some s => str_ok s | None => true end
+  | KBytes, FOStr o => match o with Some s => str_ok s | None => true end
+  | KInt, FInt z => in_int64 z
+  | KPtrInt, FOInt o => match o with Some z => in_int64 z | None => true end
+  | KBool, FBool _ => true
+  | KId, FStr s => Nat.eqb (length s) 20
+  | KArr n, FStr s => Nat.eqb (length s) n && str_ok s
+  | KPtrArr n, FOStr o => match o with Some s => Nat.eqb (length s) n && str_ok s | None => true end
+  | KNodeAddr, FAddr nn a =>
+      if nn then addr_okb a else is_nil (na_ip a) && Z.eqb (na_port a) 0
+  | KCompact c, _ => compact_wfb c false fv
+  | KPtrCompact c, _ => compact_wfb c true fv
+  | KAddrList, FAddrs o => match o with Some l => forallb addr_okb l | None => true end
+  | KWants, FStrs o => match o with Some l => forallb str_ok l | None => true end
+  | KPtrErr, FErr o => match o with Some e => in_int64 (e_code e) && str_ok (e_msg e) | None => true end
+  | KRaw, FOStr o => match o with Some raw => one_raw_valueb raw | None => true end
+  | KAny, FAny o => match o with Some v => canonb v | None => true end
+  | _, _ => false
+  end.
+
+Definition wf_structb {R} (s : sid) (get : bytes -> R -> option fval) (wfk : kind -> fval -> bool) (x : R) : bool :=
+  forallb (fun fd => match get (f_name fd) x with Some fv => wfk (f_kind fd) fv | None => false end) (schema_of s).
+
+(* the flag is the nil-ness of the slice: a nil slice has no bytes *)
+Definition wf_xargsb (x : xargs) : bool :=
+  wf_structb SArgs get_args wf_fieldb x && (snd x || is_nil (a_salt (fst x))).
+Definition wf_xretb (x : xret) : bool :=
+  wf_structb SRet get_ret wf_fieldb x && (snd x || is_nil (r_v (fst x))).
+
+Definition wf_fieldb_msg (k : kind) (fv : fval) : bool :=
+  match k, fv with
+  | KPtrStruct n, FArgs o =>
+      match sid_of_name n with
+      | Some SArgs => match o with Some a => wf_xargsb a | None => true end
+      | _ => false
+      end
+  | KPtrStruct n, FRet o =>
+      match sid_of_name n with
+      | Some SRet => match o with Some r => wf_xretb r | None => true end
+      | _ => false
+      end
+  | _, _ => wf_fieldb k fv
+  end.
+
+Definition is_some {A} (o : option A) : bool := match o with Some _ => true | None => false end.
+
+Definition wf_xmsgb (x : xmsg) : bool :=
+  wf_structb SMsg get_msg wf_fieldb_msg x &&
+  (negb (x_salt_nn x) || is_some (m_a (x_msg x))) &&
+  (negb (x_rv_nn x) || is_some (m_r (x_msg x))).
+
+Definition wf_xmsg (x : xmsg) : Prop := wf_xmsgb x = true.
+(* on the records of Msg.v, with the nil-ness flags in their normal form *)
+Definition wf_msg (m : msg) : Prop := wf_xmsgb (x_of_msg m) = true.
